@@ -31,6 +31,9 @@ DEFAULT_BUDGET = {
 }
 
 
+LOCK_ROUNDS = 4  # lock_duration 60 s / handler_retry_delay 15 s
+
+
 class Transition:
     __slots__ = ("pre", "action", "audit", "qlog", "ledger", "exc", "post", "calls", "msg", "mlabel")
 
@@ -179,7 +182,10 @@ class Explorer:
         # advanced onto the attempt that gives up: the lock lapses first.
         wr = self.w.wait_retries
         gives_up = bool(locked) and any((m["payload"].get("retry_count") or 0) >= wr for m in delayed)
-        if delayed and not ready and not gives_up:
+        # ... and a lock (60 s) cannot outlast more than LOCK_ROUNDS re-queue delays (15 s each): after that many
+        # 'advance' steps with a lock held, the lock lapses before any more time passes
+        lock_spent = bool(locked) and b.get("advl", 0) >= LOCK_ROUNDS
+        if delayed and not ready and not gives_up and not lock_spent:
             acts.append(("advance", None))
         if b["early"] > 0:
             for m in sorted(delayed, key=lambda m: (msg_label(v, m), m["id"])):
@@ -265,6 +271,8 @@ class Explorer:
         elif kind == "expire":
             w.expire()
         elif kind == "advance":
+            if any(m["elig"] == "locked" for m in st.view.queue):
+                b["advl"] = b.get("advl", 0) + 1
             w.advance()
         elif kind == "dlqsweep":
             w.queue.check_and_move_expired()
@@ -327,6 +335,8 @@ class Explorer:
         tr.post = take_view(w)
         tr.ledger = list(w.ledger)
         tr.calls = list(w.handler_calls)
+        if "advl" in b and not any(m["elig"] == "locked" for m in tr.post.queue):
+            del b["advl"]  # no lock held any more: the count starts afresh with the next lock
         return tr, b
 
     # L: sqlite "database is locked" (the engine does not classify it transient), T: ConnectionError (classified
